@@ -16,20 +16,7 @@ META = {
 }
 
 # Defects demonstrated on the unchanged tree by this check (see the report to the integrator).
-PROPOSED_KNOWN = [
-    {"kind": "known",
-     "signature": {"fam": "cut", "cause": "leading-space-of-line-with-content-removed", "detail": "line-closed-by-comment"},
-     "what": "parser.go ParseTemplateSource: when the token that closes a line is a comment (it ends the file, `tok.pos.End == lastIndex`, or it spans lines, so tok.lin is its END line) the cut test runs before that comment is counted: ` {# c #}x{# c #}` renders `x` - the leading space of a line WITH content is removed"},
-    {"kind": "known",
-     "signature": {"fam": "cut", "cause": "space-after-multi-line-statement-removed-from-line-with-content", "detail": "-"},
-     "what": "parser.go ParseTemplateSource/cutSpaces: the text that follows the end of a {%% %%} spanning lines is taken for the end of the line being closed even when it has no line feed: `{%% a := 1<LF>%%} {{ 7 }}` renders `7` - the space of a line WITH a show is removed"},
-    {"kind": "known",
-     "signature": {"fam": "cut", "cause": "leading-space-and-space-after-multi-line-statement-removed", "detail": "-"},
-     "what": "both of the two causes above in one template"},
-    {"kind": "known",
-     "signature": {"fam": "cut", "cause": "host-panic", "detail": "runtime error: slice bounds out of range [N:N]", "ctx": "space-after-multi-line-statement"},
-     "what": "parser.go cutSpaces: a text without line feed that follows a multi-line {%% %%} is cut entirely as the END of the statement's first line and again as the START of the next line: `{%% a := 1<LF>%%} {# c #}<LF>x` panics in the emitter (Text[Cut.Left:len-Cut.Right], slice bounds out of range) instead of rendering"},
-]
+PROPOSED_KNOWN = []   # the defects found by this check were fixed in /repo (known-findings.json, kind "fixed"); the "head" model is the code before those fixes, "fix" the code now
 
 FAMS = ["cut"]
 QUICK_ALPHA = {"x", "sp", "nl", "cmt", "cmtml", "if", "end", "show7", "stmtsml"}
